@@ -382,6 +382,8 @@ static void ep3_mul_reg_imp(ep3_t r, const ep3_t p, const bn_t k) {
 	size_t l, n;
 
 	bn_null(_k);
+	ep3_null(u);
+	ep3_null(v);
 
 	RLC_TRY {
 		bn_new(_k);
